@@ -375,3 +375,60 @@ M("C10", "second-comment-syntax-outranked", G, IMPORT_COMMENT, 'x',
 T("C10", "twin-named-hash-terminal-same-priority", G, IMPORT_WS, 'HASH: "#"\n\n' + IMPORT_WS)
 T("C10", "twin-priorities-on-terminals-that-start-differently", G, IMPORT_WS, 'LBRACE.1: "{"\nDNS_RESOLVER.3: "dns_resolver"\n\n' + IMPORT_WS)
 T("C10", "twin-own-comment-terminal-two-syntaxes", G, IMPORT_COMMENT, 'SH_COMMENT: /#[^\\n]*/ | "//" /[^\\n]*/\n')
+
+# ---------------------------------------------------------------------------------------------------- R9: every statement form of the language stays accepted in its block context
+# R9 compares the LANGUAGE VIEW of the compiled grammar (block context -> terminal sequences of the statement forms accepted
+# there, rule names / inline rules / unit productions / repetition helpers looked through) with the reference table of the
+# profile language.  Mutants: a statement form is lost in another place and another way than in the seeded change (an
+# alternative dropped from a rule shared by four blocks, a variant form, a word of the OPTION terminal, an execute-list
+# entry lost in a de-duplication through an inlined helper, a keyword respelled, a block body narrowed).  Twins: the same
+# kinds of grammar refactoring done completely (de-duplication through `?helper`, one copy of a shared rule per block,
+# a factored-out statement tail, the OPTION terminal composed from two terminals, alternatives reordered).
+CLIENT_RULE = (
+    'http_get_client_options: "header" string string ";" -> header\n'
+    '    | "set" "verb" string ";"                       -> verb\n'
+    '    | "metadata" "{" data_transform* "}"            -> metadata\n'
+    '    | "id" "{" data_transform*  "}"                 -> id\n'
+    '    | "parameter" string string ";"                 -> parameter\n'
+    '    | "output" "{"  data_transform*  "}"            -> output\n'
+)
+M("C10", "strrep-dropped-from-shared-transform-rule", G, '    | "strrep" string string ";"            -> strrep\n', '', "C10.R9")
+M("C10", "variant-form-of-https-certificate-dropped", G, '    | "https-certificate" variant? "{" https_certificate_options* "}"   -> https_certificate',
+  '    | "https-certificate" "{" https_certificate_options* "}"   -> https_certificate', "C10.R9")
+M("C10", "option-word-dropped-from-terminal", G, '    | "tcp_port"\n', '', "C10.R9")
+M("C10", "execute-entry-lost-in-deduplication", G, 'x', 'x', "C10.R9",
+  edits=[(G, '    | "NtQueueApcThread" ";"                -> ntqueueapcthread\n    | "NtQueueApcThread-s" ";"              -> ntqueueapcthread_s\n', '    | apc_executors\n'),
+         (G, 'beacon_gate_options: "None" ";"', '?apc_executors: "NtQueueApcThread" ";"      -> ntqueueapcthread\n\nbeacon_gate_options: "None" ";"')])
+M("C10", "termination-keyword-respelled", G, '    | "uri-append" ";"                      -> uri_append', '    | "uri_append" ";"                      -> uri_append', "C10.R9")
+M("C10", "stager-client-body-narrowed-to-headers", G, 'x', 'x', "C10.R9",
+  edits=[(G, 'http_stager_options: "set" "uri_x86" string ";"     -> uri_x86\n    | "set" "uri_x64" string ";"                    -> uri_x64\n    | "client" "{" http_options* "}"                -> client',
+          'http_stager_options: "set" "uri_x86" string ";"     -> uri_x86\n    | "set" "uri_x64" string ";"                    -> uri_x64\n    | "client" "{" http_stager_client_options* "}"  -> client'),
+         (G, 'http_options: "header" string string ";"            -> header\n',
+          'http_stager_client_options: "header" string string ";" -> header\n    | "parameter" string string ";"                 -> parameter\n\nhttp_options: "header" string string ";"            -> header\n')])
+# the de-duplication of the seeded change done completely: the non-shared `set verb` alternative is kept
+T("C10", "twin-client-options-deduplicated-through-inline-rule", G, CLIENT_RULE,
+  '?http_get_client_options: http_options\n'
+  '    | "set" "verb" string ";"                       -> verb\n'
+  '    | "metadata" "{" data_transform* "}"            -> metadata\n'
+  '    | "id" "{" data_transform* "}"                  -> id\n')
+# the shared rule un-shared: http-post gets its own copy (other alternative order)
+T("C10", "twin-client-options-one-copy-per-block", G, 'x', 'x',
+  edits=[(G, 'http_post_options: "set" "uri" string ";"           -> uri\n    | "set" "verb" string ";"                       -> verb\n    | "client" "{" http_get_client_options* "}"     -> client\n',
+          'http_post_options: "set" "uri" string ";"           -> uri\n    | "set" "verb" string ";"                       -> verb\n    | "client" "{" http_post_client_options* "}"    -> client\n'),
+         (G, CLIENT_RULE, CLIENT_RULE + '\nhttp_post_client_options: "output" "{" data_transform* "}" -> output\n'
+          '    | "id" "{" data_transform* "}"                  -> id\n'
+          '    | "metadata" "{" data_transform* "}"            -> metadata\n'
+          '    | "header" string string ";"                    -> header\n'
+          '    | "parameter" string string ";"                 -> parameter\n'
+          '    | "set" "verb" string ";"                       -> verb\n')])
+# a statement tail factored out into a spliced rule (no node of its own in the tree)
+T("C10", "twin-statement-tail-factored-out", G, 'x', 'x',
+  edits=[(G, 'http_get_options: "set" "uri" string ";"            -> uri\n    | "set" "verb" string ";"                       -> verb\n',
+          'http_get_options: "set" "uri" _value                -> uri\n    | "set" "verb" _value                           -> verb\n'),
+         (G, 'string: STRING\n', 'string: STRING\n_value: string ";"\n')])
+# the OPTION terminal composed from two terminals
+T("C10", "twin-option-terminal-composed", G, 'x', 'x',
+  edits=[(G, '    | "tcp_frame_header"\n    | "tcp_port"\n', '    | TCP_OPTION\n'),
+         (G, 'http_config_options: "set" "headers" string ";"', 'TCP_OPTION: "tcp_port" | "tcp_frame_header"\n\nhttp_config_options: "set" "headers" string ";"')])
+T("C10", "twin-transform-alternatives-reordered", G, 'stage_transform: "prepend" string ";"       -> prepend\n    | "append" string ";"                   -> append\n    | "strrep" string string ";"            -> strrep\n',
+  'stage_transform: "strrep" string string ";"  -> strrep\n    | "append" string ";"                   -> append\n    | "prepend" string ";"                  -> prepend\n')
